@@ -13,7 +13,7 @@ NEEDS_MODEL = True
 LEVEL = "exploration"
 N = {"quick": 1920, "thorough": 40000}
 STRATA = ["S1", "S1", "S2", "S2", "S3", "S1", "S2", "S3", "S4", "S5", "S6", "S8", "S6", "S8", "S9",
-          "S9", "S9", "S8", "S10", "S10", "S11", "S11"]
+          "S9", "S9", "S8", "S10", "S10", "S11", "S11", "S12", "S12"]
 
 
 def _solve_assignment(e, spec, env):
@@ -163,7 +163,7 @@ def finalize(results, counters, tier, seed):
     inc = []
     if counters.get("status", {}).get("ok", 0) < N[tier] // 4:
         inc.append("too few executed cases: %r" % counters.get("status"))
-    miss = [s for s in ("S1", "S2", "S3", "S6", "S8", "S9", "S10", "S11", "two-followers", "loop-input-rank", "partitioned", "halo",
+    miss = [s for s in ("S1", "S2", "S3", "S6", "S8", "S9", "S10", "S11", "S12", "two-followers", "loop-input-rank", "partitioned", "halo",
                         "channel", "filter-partitioned", "extra-output-operand",
                         "both-dims-partitioned")
             if counters.get("strata_ok", {}).get(s, 0) == 0]
